@@ -1220,6 +1220,19 @@ class SymEvaluator:
                     "microseconds": Poly.atom("td.microseconds"),
                     "days": Poly.atom("td.days"),
                 })
+            units = {"days": 86400 * 10**6, "hours": 3600 * 10**6, "minutes": 60 * 10**6, "seconds": 10**6,
+                     "milliseconds": 1000, "microseconds": 1, "weeks": 7 * 86400 * 10**6}
+            if not args and kw and set(kw) <= set(units):
+                total = Poly.const(0)
+                for k_, v_ in kw.items():
+                    total = total.add(_num(v_).mul(Poly.const(units[k_])))
+                # library fact: total = days*86400e6 + seconds*1e6 + microseconds (normalised fields).  The
+                # microseconds field is expressed through the other two, so that any expression that
+                # recombines all three fields is the plain total again, and one that forgets `days`
+                # keeps an explicit -86400e6*td.days term.
+                sec, days = Poly.atom("td.seconds"), Poly.atom("td.days")
+                micro = total.add(sec.mul(Poly.const(10**6)), -1).add(days.mul(Poly.const(86400 * 10**6)), -1)
+                return SObj("timedelta", {"microseconds_total": total, "seconds": sec, "days": days, "microseconds": micro})
             raise AnalysisError("symeval: timedelta with unsupported arguments")
         if name == "re.match" or name == "re.search" or name == "re.fullmatch":
             pat = args[0]
